@@ -38,6 +38,9 @@ CLAIMS = {
                 text='rcond between 1/(|A||inv A|) and 1/(|A||inv(A)e/n|) in the norm the statement prescribes (1-norm / inf-norm by transpose option, whatever the storage), info=n+1 iff rcond<eps with X still returned, pivot growth recomputed from the returned factors; on the C07 enumeration and a graded family with prescribed singular values.', ref='5 C12'),
     'C13': dict(cat='exploration', engine='mcexpert', tech='bounded-exhaustive enumeration + graded family against quad-precision exact solutions',
                 text='Returned berr equals the recomputed componentwise backward error of the returned X (on the equilibrated system), is O((n+1)eps) for cond<1/sqrt(eps); 40*ferr dominates the true relative error against the quad-precision exact solution of the original system; all trans/equed/precision combinations.', ref='5 C13'),
+    'C14': dict(cat='fault_enumeration', engine='mcfault', tech='exhaustive fault enumeration: every allocation index k of every driver call, every user-workspace size, with crash classification in forked children',
+                text='For each driver call of a menu (4 matrices x 3 entry paths x 1-4 threads x 4 precisions): request k and all later fail for EVERY k up to the measured number of requests (and single failures); every lwork in 4-byte steps up to 1.25 x the queried estimate with red zones; lwork=-1; too-small tunable estimates. Outcome must be info>n or the abort path with a diagnostic, never a memory error, a hang, a bogus info or success; with a sufficient buffer L/U lie inside it and results equal the internal-memory run; a query creates no thread.', ref='5 C14',
+                note='Trusted base: allocation failure injected at the renamed malloc level; outcome classes from exit status + captured stderr; ASan/UBSan. Threads run inline here; K12 jobs of Engine S cover user workspace under real interleavings.'),
     'C15': dict(cat='exploration', engine='mcargs', tech='bounded-exhaustive enumeration of every single and every ordered pair of documented-precondition violations on legal baselines, with bytewise side-effect and heap-balance oracles',
                 text='8 routines x 20 legal baseline calls (real factors) x all 1258 single violations and 99218 ordered pairs, 4 precisions: info = -i and one xerbla_ call for the documented position of the first offender, every object reachable from the arguments bytewise unchanged, no allocation retained; crashes attributed per case.', ref='5 C15'),
     'C08': dict(cat='exploration', engine='mchist', tech='bounded-exhaustive enumeration of call histories (operation sequences up to a depth) against reference oracles after every call',
@@ -100,6 +103,7 @@ def main():
             {'name': 'mckern', 'path': 'engines/mckern', 'serves_properties': ['C19'], 'kind_free_text': 'Engine Q: sparse kernels / norms / format conversions vs dense long-double definitions (delegated build, reviewed)'},
             {'name': 'mcorder', 'path': 'engines/mcorder', 'serves_properties': ['C10'], 'kind_free_text': 'Engine Q: orderings / etree / postorder / partition vs brute-force reference (delegated build, reviewed)'},
             {'name': 'mcread', 'path': 'engines/mcread', 'serves_properties': ['C20'], 'kind_free_text': 'Engine Q: file readers vs independent writer (delegated build, reviewed)'},
+            {'name': 'mcfault', 'path': 'engines/mcfault', 'serves_properties': ['C14'], 'kind_free_text': 'Engine Q: allocation-fault and workspace-size enumeration, one forked child per case'},
             {'name': 'mcseq', 'path': 'engines/mcseq', 'serves_properties': ['C01', 'C02', 'C05', 'C06', 'C09', 'C16'],
              'kind_free_text': 'Engine Q: bounded-exhaustive enumeration of inputs, options, call histories and faults of the sequential API against long-double reference models, crash-isolated'},
         ],
